@@ -362,6 +362,8 @@ type charLoop struct {
 	sizeV  ssa.Value
 	str    *ssa.Parameter
 	buf    *ssa.Parameter
+	next   *ssa.Next // `for _, r := range str`: the rune comes from the iterator (invalid bytes arrive as RuneError)
+	okV    ssa.Value
 }
 
 func findCharLoop(fn *ssa.Function) (*charLoop, string) {
@@ -407,7 +409,31 @@ func findCharLoop(fn *ssa.Function) (*charLoop, string) {
 		}
 	})
 	if cl.byteIn == nil {
-		return nil, "no byte read str[i] found"
+		// range over the string
+		sx.Instrs(fn, func(in ssa.Instruction) {
+			nx, ok := in.(*ssa.Next)
+			if !ok || !nx.IsString {
+				return
+			}
+			if rg, ok := nx.Iter.(*ssa.Range); !ok || rg.X != ssa.Value(cl.str) {
+				return
+			}
+			cl.next = nx
+			for _, u := range *nx.Referrers() {
+				if e, ok := u.(*ssa.Extract); ok {
+					switch e.Index {
+					case 0:
+						cl.okV = e
+					case 2:
+						cl.runeV = e
+					}
+				}
+			}
+		})
+		if cl.next == nil || cl.runeV == nil {
+			return nil, "no byte read str[i] and no `range str` loop found"
+		}
+		cl.hdr = cl.next.Block()
 	}
 	return cl, ""
 }
@@ -418,6 +444,9 @@ func (cl *charLoop) evalByte(p *core.Prog, tables map[string][]constant.Value, b
 	if peDebug && b == 0 {
 		fmt.Fprintf(os.Stderr, "pe: byteIn=%s in block %d hdr=%d\n", cl.byteIn, cl.byteIn.Block().Index, cl.hdr.Index)
 		cl.fn.WriteTo(os.Stderr)
+	}
+	if cl.next != nil {
+		return cl.evalRange(p, tables, rune(b))
 	}
 	e := &peEnv{p: p, vals: map[ssa.Value]constant.Value{cl.byteV: constant.MakeInt64(int64(b))}, arrays: map[*ssa.Alloc]map[int64]constant.Value{}, tables: tables}
 	blk := cl.byteIn.Block()
@@ -430,7 +459,26 @@ func (cl *charLoop) evalByte(p *core.Prog, tables map[string][]constant.Value, b
 	return e.step(cl.fn, blk, idx, cl.hdr, cl.buf, cl.str)
 }
 
+// evalRange: one iteration of `for _, r := range str` with r bound.
+func (cl *charLoop) evalRange(p *core.Prog, tables map[string][]constant.Value, r rune) peOutcome {
+	e := &peEnv{p: p, vals: map[ssa.Value]constant.Value{cl.runeV: constant.MakeInt64(int64(r))}, arrays: map[*ssa.Alloc]map[int64]constant.Value{}, tables: tables}
+	if cl.okV != nil {
+		e.vals[cl.okV] = constant.MakeBool(true)
+	}
+	blk := cl.next.Block()
+	idx := 0
+	for i, in := range blk.Instrs {
+		if in == ssa.Instruction(cl.next) {
+			idx = i + 1
+		}
+	}
+	return e.step(cl.fn, blk, idx, cl.hdr, cl.buf, cl.str)
+}
+
 func (cl *charLoop) evalRune(p *core.Prog, tables map[string][]constant.Value, r rune, size int, firstByte byte) peOutcome {
+	if cl.next != nil {
+		return cl.evalRange(p, tables, r)
+	}
 	if cl.decode == nil {
 		return peOutcome{Kind: "undecided", Why: "no rune decoding in the function"}
 	}
